@@ -171,6 +171,22 @@ func (fr *Frame) modCall(ci ssa.CallInstruction, ms *modSet, bind map[*ssa.FreeV
 			}
 			return
 		}
+		if fc := w.P.Contracts[key]; fc != nil && fc.Iterates != nil {
+			// the callback's writes are the iterator's writes
+			for _, a := range c.Args {
+				if mc, ok := resolveBind(a, bind).(*ssa.MakeClosure); ok && depth < 4 {
+					cf := mc.Fn.(*ssa.Function)
+					nb := map[*ssa.FreeVar]ssa.Value{}
+					for i, fv := range cf.FreeVars {
+						nb[fv] = resolveBind(mc.Bindings[i], bind)
+					}
+					fr.modifiedIn(cf, nil, ms, nb, depth+1)
+					return
+				}
+			}
+			ms.all = true
+			return
+		}
 		if fc := w.P.Contracts[key]; fc != nil && !fc.Inline {
 			fr.modContract(fc, c, ms, bind)
 			return
@@ -363,65 +379,18 @@ func (fr *Frame) loopHeader(li *loopInfo, b *ssa.BasicBlock, preds []*ssa.BasicB
 	ms := newModSet()
 	fr.modifiedIn(fr.fn, li.body, ms, fr.ssaBindings(), 0)
 	st := fr.cur
-	if ms.all {
-		st.havocAll()
-		fr.assumeGlobals(st)
-		w.assumptions[fmt.Sprintf("loop %d of %s calls code without a frame: all heap state is havocked there", li.ordinal, fr.fn.Name())] = true
-	} else {
-		for _, name := range sortedKeys(ms.m) {
-			t := ms.m[name]
-			so := w.heapSortOfName(name)
-			if so == "" {
-				enc.unsup("loop %d writes heap variable %s whose sort is unknown", li.ordinal, name)
-			}
-			cur := st.Get(name, so)
-			pointwise := !t.whole && len(so) > 11 && so[:11] == "(Array Int "
-			freshRegion := false
-			var outside []ssa.Value
-			if pointwise {
-				for _, r := range t.refs {
-					if definedOutside(r, li) {
-						outside = append(outside, r)
-					} else if a, ok := r.(*ssa.MakeSlice); ok && li.body[a.Block().Index] {
-						freshRegion = true
-					} else if a, ok := r.(*ssa.Alloc); ok && li.body[a.Block().Index] {
-						// memory allocated inside the loop: only references >= the allocation counter at
-						// loop entry are written
-						freshRegion = true
-					} else {
-						pointwise = false
-					}
-				}
-			}
-			if pointwise {
-				_, el := splitSortPair(so[7 : len(so)-1])
-				if freshRegion {
-					base := enc.declare("lhb_"+name, so)
-					cntEntry := entry.Get("$cnt", "Int")
-					q := Leaf(fmt.Sprintf("q_lh_%d", w.fresh()))
-					enc.assume(A("forall", A("(("+q.Op+" Int))"),
-						A("!", Implies(Lt(q, cntEntry), Eq(Select(base, q), Select(cur, q))), Leaf(":pattern"), A("", Select(base, q)))),
-						"loop writes "+name+" only at references allocated inside the loop (or listed)")
-					cur = base
-				}
-				for _, r := range outside {
-					fv := enc.declare("hv_"+name, el)
-					ref := fr.val(r)
-					if _, isSlice := r.Type().Underlying().(*types.Slice); isSlice {
-						ref = A("s_base", ref)
-					}
-					cur = Store(cur, ref, fv)
-				}
-				st.Set(name, enc.define("lh_"+name, so, cur))
-			} else {
-				nv := enc.declare("lh_"+name, so)
-				if name == "$cnt" || (len(name) > 4 && name[:4] == "$fx.") || isMonotoneGhost(name) {
-					enc.assume(Le(cur, nv), "monotone counter")
-				}
-				st.Set(name, nv)
-			}
+	fr.applyHavoc(ms, st, entry, func(r ssa.Value) int {
+		if definedOutside(r, li) {
+			return 0
 		}
-	}
+		if a, ok := r.(*ssa.MakeSlice); ok && li.body[a.Block().Index] {
+			return 1
+		}
+		if a, ok := r.(*ssa.Alloc); ok && li.body[a.Block().Index] {
+			return 1
+		}
+		return 2
+	}, fmt.Sprintf("loop %d of %s", li.ordinal, fr.fn.Name()))
 	for _, phi := range phis {
 		so := w.sortOf(phi.Type())
 		c := enc.declare(fr.pfx+phi.Name(), so)
@@ -664,4 +633,70 @@ func (fr *Frame) resolveNameAt(name string, li *loopInfo, at ssa.Instruction) (T
 		return TV{fr.val(best), best.Type()}, true
 	}
 	return fr.resolveName(name, li)
+}
+
+// applyHavoc replaces what a loop (or an expanded iterator callback) may write by unknown values.
+// classify: 0 = reference defined before the construct (pointwise havoc), 1 = memory allocated
+// inside it (only fresh references are written), 2 = anything else (whole array).
+func (fr *Frame) applyHavoc(ms *modSet, st *State, entry *State, classify func(ssa.Value) int, what string) {
+	enc := fr.enc
+	w := enc.w
+	if ms.all {
+		before := st.clone()
+		st.havocAll()
+		fr.assumeGlobals(st)
+		fr.keepPrivate(before, st)
+		w.assumptions[what+" calls code without a frame: all heap state is havocked there"] = true
+		return
+	}
+	for _, name := range sortedKeys(ms.m) {
+		t := ms.m[name]
+		so := w.heapSortOfName(name)
+		if so == "" {
+			enc.unsup("%s writes heap variable %s whose sort is unknown", what, name)
+		}
+		cur := st.Get(name, so)
+		pointwise := !t.whole && len(so) > 11 && so[:11] == "(Array Int "
+		freshRegion := false
+		var outside []ssa.Value
+		if pointwise {
+			for _, r := range t.refs {
+				switch classify(r) {
+				case 0:
+					outside = append(outside, r)
+				case 1:
+					freshRegion = true
+				default:
+					pointwise = false
+				}
+			}
+		}
+		if pointwise {
+			_, el := splitSortPair(so[7 : len(so)-1])
+			if freshRegion {
+				base := enc.declare("lhb_"+name, so)
+				cntEntry := entry.Get("$cnt", "Int")
+				q := Leaf(fmt.Sprintf("q_lh_%d", w.fresh()))
+				enc.assume(A("forall", A("(("+q.Op+" Int))"),
+					A("!", Implies(Lt(q, cntEntry), Eq(Select(base, q), Select(cur, q))), Leaf(":pattern"), A("", Select(base, q)))),
+					what+" writes "+name+" only at references allocated inside it (or listed)")
+				cur = base
+			}
+			for _, r := range outside {
+				fv := enc.declare("hv_"+name, el)
+				ref := fr.val(r)
+				if _, isSlice := r.Type().Underlying().(*types.Slice); isSlice {
+					ref = A("s_base", ref)
+				}
+				cur = Store(cur, ref, fv)
+			}
+			st.Set(name, enc.define("lh_"+name, so, cur))
+		} else {
+			nv := enc.declare("lh_"+name, so)
+			if name == "$cnt" || (len(name) > 4 && name[:4] == "$fx.") || isMonotoneGhost(name) {
+				enc.assume(Le(cur, nv), "monotone counter")
+			}
+			st.Set(name, nv)
+		}
+	}
 }
